@@ -26,9 +26,8 @@ Fixpoint digits_val (base : N) (s : bstr) (acc : N) : option N :=
 (* strconv.ParseInt(s, base, 64) with base 10 or 16: [None] is err != nil (syntax or range) *)
 Definition parse_int (base : N) (s : bstr) : option Z :=
   let '(neg, ds) := match s with
-                    | 43 :: r => (false, r)
-                    | 45 :: r => (true, r)
-                    | _ => (false, s)
+                    | c :: r => if c =? 43 then (false, r) else if c =? 45 then (true, r) else (false, s)
+                    | [] => (false, s)
                     end in
   match ds with
   | [] => None
